@@ -94,7 +94,7 @@ CHECKS = {
         },
         "runs": [seq("HarnessC03A2", ["c03-end"]), seq("HarnessC03B2", ["c03-end"]), seq("HarnessC03C2", ["c03-end"]),
                  seq("HarnessC03D2", ["c03-end"], native_timeout=120), seq("HarnessC03ConfigRecursive", [], native_timeout=120),
-                 seq("HarnessC03E", ["c03-end"]), seq("HarnessC03F2", ["c03-end"]), seq("HarnessC03G2", ["c03-end"], ["quick"]), seq("HarnessC03G2Full", ["c03-end"], ["thorough"]), seq("HarnessC03H2", ["c03h-end"]), seq("HarnessC03I2", ["c03-end"]), conc("HarnessC03SourceSharing", ["c03s-end"]),
+                 seq("HarnessC03E", ["c03-end"]), seq("HarnessC03F2", ["c03-end"]), seq("HarnessC03G2", ["c03-end"], ["quick"]), seq("HarnessC03G2Full", ["c03-end"], ["thorough"], maxpaths=1500000, timeout="3000s"), seq("HarnessC03H2", ["c03h-end"]), seq("HarnessC03I2", ["c03-end"]), conc("HarnessC03SourceSharing", ["c03s-end"]),
                  seq("HarnessC03A3", ["c03-end"], ["thorough"])],
         "bounds": {"quick": "families A (pointer fields), B (maps), C (slices/arrays), D (interfaces), E (maps of maps), F (refs after unexported fields), G (arrays of arrays, slices of arrays, maps of arrays; reduced edge set in quick), H (through Config: Kids []*T, Named map[string]*T, Pair [1]*T with root back-edges); N<=2 nodes; call depth bound 400 (unwinding assertion); family I (named pointer/map/slice types, one map under two named map types), source-value sharing through Config and a re-stack; slice prefixes, unmanaged references, pointer to array of references, self-containing map and named pointer in an interface",
                    "thorough": "plus family A with 3 nodes and the full edge set of family G"},
